@@ -3,11 +3,14 @@
 //!   impl.txt   what the implementation / the harness' own monitor computed for the same line
 //!   meta.txt   one JSON-ish description per line (scenario, history) used for replays
 //!   stats.txt  measured distribution
-//! Line kinds: T (trace), LC/LR/LB/PA (layout differential), LF (length accepted?), U (used page in bounds).
+//! Line kinds: T (trace), LC/LR/LB/PA (layout differential), LF (length accepted?), U (used page in bounds),
+//! H / HT (shutdown model stream / close-timing oracle per API step: harness/src/c20_close.rs).
 #![allow(clippy::too_many_arguments)]
 
 #[path = "../c08_util.rs"]
 mod util;
+#[path = "../c20_close.rs"]
+mod close;
 
 use redb::{ReadableDatabase, ReadableTable, RepairSession};
 use rv_harness::{Rng, catch, seed_from_env, silence_panics, tier_is_thorough};
@@ -607,10 +610,30 @@ fn failing_opens(rng: &mut Rng, images: &[(Config, Vec<u8>, bool)], out: &mut Ou
         if rng.chance(1, 5) {
             be.lock().fail_close = true;
         }
+        // the open itself, watched through the latch log: one SOpen event for the shutdown model
+        be.lock().latch_log = true;
+        redb::verif_c08::latch_log_start();
+        let id = format!("open:{scen}#{n}");
+        let mut note_open = |be: &MonBackend, out: &mut Out, ok: bool| {
+            let log = redb::verif_c08::latch_log_take();
+            let mut g = be.lock();
+            g.latch_log = false;
+            // (a read past len() is answered with an error the log does not show: F-C20-1 scenarios are left out)
+            if g.oob.is_empty() {
+                let lines = close::open_lines(&id, log, ok, g.closes, g.calls_after_close, g.fail_close);
+                drop(g);
+                for (c, i) in lines {
+                    out.push(c, i, format!("{{\"scenario\":\"open-path:{scen}\",\"clean_image\":{clean},\"read_only\":{ro},\"opened\":{ok}}}"));
+                }
+                *out.markers.entry(if ok { "open_path_ok_modelled" } else { "open_path_failure_modelled" }).or_default() += 1;
+            }
+        };
         let res: Result<(), String> = if ro {
             let b = Runner::builder(&cfg);
             let h = be.handle();
-            match catch(move || b.verif_open_read_only_with_backend(h)) {
+            let r = catch(move || b.verif_open_read_only_with_backend(h));
+            note_open(&be, out, matches!(r, Ok(Ok(_))));
+            match r {
                 Ok(Ok(db)) => {
                     // read something, hold a read transaction past the database
                     let rt = catch(|| db.begin_read());
@@ -641,7 +664,9 @@ fn failing_opens(rng: &mut Rng, images: &[(Config, Vec<u8>, bool)], out: &mut Ou
                 Err(p) => Err(format!("panic: {p}")),
             }
         } else {
-            match open_with(&cfg, &be, abort_at) {
+            let r = open_with(&cfg, &be, abort_at);
+            note_open(&be, out, r.is_ok());
+            match r {
                 Ok(db) => {
                     let _ = catch(|| {
                         if let Ok(rt) = db.begin_read() {
@@ -991,6 +1016,136 @@ fn reads_racing_close(rng: &mut Rng, out: &mut Out, trials: usize) {
     }
 }
 
+/// one close-timing run -> an H line (model vs latch-log stream, S2) and an HT line (timing oracle, S3)
+fn emit_close(out: &mut Out, fam: &close::Family, cfg: &Config, s: &close::Sess, fault: Option<(close::Fault, &str)>, n: &mut usize) {
+    let id = format!("close:{}#{}", fam.name, *n);
+    *n += 1;
+    let fdesc = match fault {
+        Some((f, what)) => format!("{{\"in\":\"{what}\",\"act\":{},\"op_index\":{},\"kind\":\"{}\"}}", f.act, f.k, if f.permanent { "from" } else { "once" }),
+        None => "null".into(),
+    };
+    let script: Vec<String> = fam.script.iter().map(|a| format!("\"{}\"", a.name())).collect();
+    let fail_close = s.be.lock().fail_close;
+    let meta = format!(
+        "{{\"scenario\":\"close-timing:{}\",\"page_size\":{},\"cache_size\":{},\"fault\":{fdesc},\"backend_close_fails\":{fail_close},\"script\":[{}],\"steps\":{}}}",
+        fam.name,
+        cfg.page_size,
+        cfg.cache_size,
+        script.join(","),
+        s.describe()
+    );
+    let (c, i) = s.h_line(&id);
+    out.push(c, i, format!("{{\"scenario\":\"close-timing:{}\",\"fault\":{fdesc},\"backend_close_fails\":{fail_close},\"details\":\"next line\"}}", fam.name));
+    let (c, i) = s.ht_line(&id);
+    // distinct observations (events + counts, id stripped)
+    let h = fnv(&c[c.find(' ').map(|x| x + 1 + id.len()).unwrap_or(0)..]);
+    let failed: u64 = s.steps.iter().map(|st| st.nfailed).sum();
+    if out.trace_hashes.insert(h) && (failed > 0 || fail_close || fam.name.contains('/') && !fam.name.ends_with("/none")) {
+        out.nontrivial.insert(h);
+    }
+    out.push(c, i, meta);
+    *out.scen.entry("close-timing".to_string()).or_default() += 1;
+    *out.markers.entry("close_timing_runs").or_default() += 1;
+    if failed > 0 {
+        *out.markers.entry("close_timing_run_with_failed_backend_call").or_default() += 1;
+    }
+    if let Some((_, what)) = fault {
+        *out.markers.entry(match what {
+            "closing-step" => "close_timing_fault_aimed_at_closing_step",
+            "earlier-commit" => "close_timing_fault_aimed_at_earlier_commit",
+            "random-act" => "close_timing_fault_in_random_history",
+            _ => "close_timing_fault_aimed_at_writer_ops",
+        }).or_default() += 1;
+    }
+    // did a reader-side holder outlive the closing event?  (a Drop of the CheckedBackend in a later step)
+    if let Some(ci) = s.steps.iter().position(|st| st.closes > 0) {
+        if s.steps[ci + 1..].iter().any(|st| st.stream.contains('D')) {
+            *out.markers.entry("close_timing_reader_outlived_the_close").or_default() += 1;
+        }
+        if s.steps[ci].api != "drop(db)" {
+            *out.markers.entry("close_timing_closed_by_end_of_writer").or_default() += 1;
+        }
+    }
+    for p in &s.panics {
+        out.anomalies.push(format!("close-timing {}: {p}", fam.name));
+    }
+}
+
+/// close-timing scenario families (harness/src/c20_close.rs): every reader population x every way the session
+/// ends, fault-free and with a fault at the op indices of the closing step, of an earlier commit (latched
+/// failure before the drop) and of the deferring writer's operations
+fn close_timing(rng: &mut Rng, out: &mut Out, thorough: bool, seed: u64) {
+    redb::verif::set_pause_controller(Some(std::sync::Arc::new(close::Marks)));
+    let rs = close::reader_sets();
+    let cl = close::closings();
+    let mut n = 0usize;
+    for (ri, r) in rs.iter().enumerate() {
+        for (ci, c) in cl.iter().enumerate() {
+            let si = ri * cl.len() + ci;
+            let mut frng = rng.fork(9000 + si as u64);
+            let ps = *frng.pick(&[512usize, 4096]);
+            let cfg = Config { page_size: ps, region_size: ps as u64 * 64, cache_size: *frng.pick(&[0usize, 8192, 1 << 20]) };
+            let fam = close::build_family(&mut frng, r, c);
+            let s0 = close::run_script(&cfg, &fam.script, None, false);
+            emit_close(out, &fam, &cfg, &s0, None, &mut n);
+            let s0c = close::run_script(&cfg, &fam.script, None, true);
+            emit_close(out, &fam, &cfg, &s0c, None, &mut n);
+            let calls_of = |act: usize| -> u64 { s0.steps.iter().filter(|s| s.act == act).map(|s| s.ncalls).sum() };
+            let mut targets: Vec<(usize, &str)> = vec![(fam.closing_act, "closing-step"), (fam.earlier_commit_act, "earlier-commit")];
+            if let Some(w) = fam.writer_ops_act {
+                targets.push((w, "writer-ops"));
+            }
+            for (act, what) in targets {
+                let total = calls_of(act);
+                for k in 0..total {
+                    // thorough: every index in every family.  quick: the first 3 and the last 12 indices in every
+                    // family (begin of the sequence; shutdown header flush and what precedes it), the others in the
+                    // families whose number matches the index modulo 6 (every index is hit in several families)
+                    let edge = k < 3 || k + 12 >= total;
+                    let m = if what == "closing-step" { 6 } else { 12 };
+                    if !thorough && !(what != "writer-ops" && edge) && (k + si as u64 + seed) % m != 0 {
+                        continue;
+                    }
+                    for permanent in [false, true] {
+                        if !thorough && !edge && (permanent != ((k / m) % 2 == 0)) {
+                            continue;
+                        }
+                        let fail_close = frng.chance(1, 5);
+                        let f = close::Fault { act, k, permanent };
+                        let s = close::run_script(&cfg, &fam.script, Some(f), fail_close);
+                        emit_close(out, &fam, &cfg, &s, Some((f, what)), &mut n);
+                    }
+                }
+            }
+        }
+    }
+    // random histories, fault-free and with faults at random op indices of random acts
+    let n_random = if thorough { 1200 } else { 160 };
+    for i in 0..n_random {
+        let mut frng = rng.fork(20000 + i as u64);
+        let ps = *frng.pick(&[512usize, 4096]);
+        let cfg = Config { page_size: ps, region_size: ps as u64 * 64, cache_size: *frng.pick(&[0usize, 8192, 1 << 20]) };
+        let len = 6 + frng.below(16) as usize;
+        let fam = close::random_family(&mut frng, i, len);
+        let s0 = close::run_script(&cfg, &fam.script, None, frng.chance(1, 4));
+        emit_close(out, &fam, &cfg, &s0, None, &mut n);
+        let per_act: Vec<(usize, u64)> = (0..fam.script.len())
+            .map(|a| (a, s0.steps.iter().filter(|s| s.act == a).map(|s| s.ncalls).sum::<u64>()))
+            .filter(|(_, c)| *c > 0)
+            .collect();
+        if per_act.is_empty() {
+            continue;
+        }
+        for _ in 0..3 {
+            let (act, total) = *frng.pick(&per_act);
+            let f = close::Fault { act, k: frng.below(total), permanent: frng.chance(1, 2) };
+            let s = close::run_script(&cfg, &fam.script, Some(f), frng.chance(1, 5));
+            emit_close(out, &fam, &cfg, &s, Some((f, "random-act")), &mut n);
+        }
+    }
+    redb::verif::set_pause_controller(None);
+}
+
 fn main() {
     silence_panics();
     let seed = seed_from_env();
@@ -1016,6 +1171,8 @@ fn main() {
     drop_orders(&mut drng, &mut out, n_drop);
     let mut frng = rng.fork(4);
     faulted_histories(&mut frng, seed, &mut out, n_fault, n_ops);
+    let mut crng = rng.fork(6);
+    close_timing(&mut crng, &mut out, thorough, seed);
     read_paused_across_close(&mut out);
     let mut rrng = rng.fork(5);
     reads_racing_close(&mut rrng, &mut out, if thorough { 60 } else { 12 });
